@@ -25,7 +25,7 @@ ASSUMPTIONS = [
     "the analytic Jacobian of the generated map (linear + sin + bilinear terms) coded in numpy is the reference",
     "jax.random.split produces distinct keys for distinct inputs (trusted JAX)",
 ]
-REQUIRED_OBS = {"blocks_compared": 20, "probe_enumerations": 4, "rejections_checked": 4}
+REQUIRED_OBS = {"history_calls": 24, "blocks_compared": 20, "probe_enumerations": 4, "rejections_checked": 4}
 TOL = 1e-11
 
 
@@ -60,6 +60,8 @@ def cases(tier, seed):
     for handler in ("materialize", "mc_fwd", "mc_rev"):
         out.append({"id": f"reject-{handler}", "kind": "reject", "handler": handler})
         out.append({"id": f"keys-{handler}", "kind": "keys", "handler": handler, "mapseed": rng.randrange(10**9)})
+        for j in range(2 if tier == "quick" else 6):
+            out.append({"id": f"history-{handler}-{j}", "kind": "history", "handler": handler, "mapseed": rng.randrange(10**9)})
     return out
 
 
@@ -212,6 +214,48 @@ def run_case(case):
             sigs.append(f"{hname}|{block}|{n_in}|{n_out}|{d}")
         sample = {"handler": hname, "block": block, "shape": [n_in, n_out, d], "max_abs_dev": obs.get("max_block_err")}
         return {"violations": viols, "obs": obs, "sigs": sigs, "sample": sample}
+
+    if kind == "history":
+        # one handler instance, a sequence of calls: the same function object with different keyword arguments, a second
+        # function of the same shapes, different points, all three methods interleaved. Every answer must be exact for the
+        # arguments of *that* call (seed C17-s3 cached the Jacobian transform per function object with the first kwargs).
+        hname = case["handler"]
+        r = np.random.default_rng(case["mapseed"])
+        n_in, n_out, d = 2, 2, 2
+        A1, A2 = jnp.asarray(r.normal(size=(n_out, n_in))), jnp.asarray(r.normal(size=(n_out, n_in)))
+        Bm = jnp.asarray(r.normal(size=(d, d)))
+
+        def f1(x, *, t, w):
+            return jnp.tanh(t * (A1 @ x @ Bm)) + w * (A2 @ (x * x))
+
+        def f2(x, *, t, w):
+            return jnp.sin(A2 @ x) * t + w * (A1 @ x @ Bm.T)
+
+        nprobe = (n_in if hname == "mc_fwd" else n_out) * d
+        h = _handler(hname, num_probes=2**nprobe)
+        state = h.init_jacobian_handler()
+        worst = 0.0
+        with _Interposer():
+            for i in range(8):
+                f = f1 if i % 4 != 3 else f2
+                kw = {"t": float(r.uniform(-2, 2)), "w": float(r.uniform(-1, 1))}
+                x = jnp.asarray(r.normal(size=(n_in, d)))
+                block = ["dense", "trace", "diagonal"][int(r.integers(0, 3))]
+                meth = {"dense": h.materialize_dense, "trace": h.calculate_trace_along_d, "diagonal": h.calculate_diagonal_along_d}[block]
+                fx, got, state = meth(f, x, state, **kw)
+                J = np.asarray(jax.jacfwd(lambda s_, f=f, kw=kw: f(s_, **kw))(x), float)
+                want = _expected(block, J)
+                e_val = util.rel_err(np.asarray(fx), np.asarray(f(x, **kw)), floor=1.0)
+                err = float(np.max(np.abs(np.asarray(got, float) - want))) / max(1.0, float(np.max(np.abs(J))))
+                worst = max(worst, err, e_val)
+                obs["history_calls"] = obs.get("history_calls", 0) + 1
+                if err > TOL or e_val > TOL:
+                    viols.append(util.viol("block_value_in_history", f"{hname}.{block}, call {i} of a sequence on one handler (kwargs {kw}): deviation {err:.3g} "
+                                                                    f"(value {e_val:.3g}) from the exact block for the arguments of this call",
+                                           tags={"handler": hname, "block": block, "call_index": i}))
+                    break
+        obs["max_history_err"] = worst
+        return {"violations": viols, "obs": obs, "sigs": [f"history|{hname}"], "sample": {"handler": hname, "max_history_err": worst}}
 
     if kind == "keys":
         # successive calls must consume pairwise distinct sub-keys and return fresh keys
